@@ -1,0 +1,58 @@
+//! Verification hooks. Compiled only with `--cfg daniel729_chess_verif`;
+//! without that flag this file is not part of the build.
+//!
+//! * `on_poll` is called at the node-entry poll of the search. It counts polls, clears the
+//!   running flag once a preset number of polls has been reached, and empties the
+//!   transposition table when table-less search is requested.
+//! * `schedule_point` sleeps at a named point of the UCI session code for a duration given in
+//!   the environment variable `RUSTYBAIT_VERIF_<NAME>_MS`, to stretch a scheduling window.
+#![allow(dead_code)]
+
+use crate::search::TranspositionTable;
+use std::sync::atomic::{AtomicBool, AtomicI64, AtomicU64, Ordering::Relaxed};
+use std::sync::Once;
+
+/// Number of polls performed since the last reset.
+pub static POLLS: AtomicU64 = AtomicU64::new(0);
+/// The poll with this index (counting from 0) and all later ones see a cleared flag; negative = never.
+pub static STOP_AFTER: AtomicI64 = AtomicI64::new(-1);
+/// Empty the table at every poll.
+pub static CLEAR_TABLE: AtomicBool = AtomicBool::new(false);
+
+static ENV_INIT: Once = Once::new();
+
+fn env_i64(name: &str) -> Option<i64> {
+    std::env::var(name).ok().and_then(|v| v.parse().ok())
+}
+
+fn init_from_env() {
+    ENV_INIT.call_once(|| {
+        if let Some(n) = env_i64("RUSTYBAIT_VERIF_STOP_AFTER") {
+            STOP_AFTER.store(n, Relaxed);
+        }
+        if env_i64("RUSTYBAIT_VERIF_CLEAR_TABLE").is_some_and(|v| v != 0) {
+            CLEAR_TABLE.store(true, Relaxed);
+        }
+    });
+}
+
+pub fn on_poll(flag: &AtomicBool, table: &mut TranspositionTable) {
+    init_from_env();
+    let n = POLLS.fetch_add(1, Relaxed);
+    let stop = STOP_AFTER.load(Relaxed);
+    if stop >= 0 && n as i64 >= stop {
+        flag.store(false, Relaxed);
+    }
+    if CLEAR_TABLE.load(Relaxed) {
+        table.clear();
+    }
+}
+
+pub fn schedule_point(name: &str) {
+    let var = format!("RUSTYBAIT_VERIF_{}_MS", name.to_ascii_uppercase());
+    if let Some(ms) = env_i64(&var) {
+        if ms > 0 {
+            std::thread::sleep(std::time::Duration::from_millis(ms as u64));
+        }
+    }
+}
